@@ -88,10 +88,13 @@ func (v V) Bytes() []byte {
 
 var bucketNames = []string{"b0", "b1", "b2", "b3", "b4", "b5", "\x00bin", "zz\xff", "k0003", "k0010"}
 
-// BucketName renders bucket name n; n == -1 is the empty name; n >= 100 is a long name.
+// BucketName renders bucket name n; n == -1 is the empty name; 100 <= n < 1000 is a long name; n >= 1000 a numbered name.
 func BucketName(n int) string {
 	if n == -1 {
 		return ""
+	}
+	if n >= 1000 {
+		return fmt.Sprintf("nb%05d", n) // numbered names: hundreds of sibling buckets
 	}
 	if n >= 100 {
 		b := make([]byte, n)
